@@ -1221,7 +1221,14 @@ func findRowIndex(cm *ChunkMeta, ctx *ReadContext, cr ColumnReader, timeCol *rec
 			return
 		}
 
-		n := findRowIdxStart(timeCol, tm, ctx.Ascending)
+		// the row whose time is tm: in a descending read the times are decoded newest first, and
+		// findRowIdxStart would answer the row after it (the first time below tm)
+		var n int
+		if ctx.Ascending {
+			n = findRowIdxStart(timeCol, tm, true)
+		} else {
+			n = findRowIdxStop(timeCol, tm, false)
+		}
 		if n >= timeCol.Len {
 			continue
 		}
